@@ -6,20 +6,33 @@ namespace Fs.Sched
 /-- the connect ladder after the lock has been taken -/
 def body (d s : Nat) : List Instr :=
   [.probe (.db d), .callIfAbsent (.db d) .create, .callIfAbsent (.db d) .setInfo,
-   .probe (.schema d s), .callIfAbsent (.schema d s) .create, .probe (.schema d s), .release]
+   .probe (.schema d s), .callIfAbsent (.schema d s) .create, .probe (.schema d s), .release 0]
 
-theorem connect_locked (d s : Nat) : connectStmt true d s = .acquire :: body d s := by
-  simp [connectStmt, body]
+/-- the ladder without the schema-creation rung (create_schema_on_connect off) -/
+def bodyNS (d s : Nat) : List Instr :=
+  [.probe (.db d), .callIfAbsent (.db d) .create, .callIfAbsent (.db d) .setInfo, .probe (.schema d s), .release 0]
+
+/-- the part of the ladder a connect with flags (`cd`, `cs`) runs once it holds the lock -/
+def entry (cd cs : Bool) (d s : Nat) : List Instr :=
+  match cd, cs with
+  | true, true => body d s
+  | false, true => (body d s).drop 3
+  | false, false => (body d s).drop 5
+  | true, false => bodyNS d s
+
+theorem connect_locked (cd cs : Bool) (d s : Nat) : connectWith (some 0) cd cs d s = .acquire 0 :: entry cd cs d s := by
+  cases cd <;> cases cs <;> simp [connectWith, entry, body, bodyNS]
 
 /-- the lock holder is somewhere inside the ladder, and a pending conditional CREATE agrees with the engine state -/
 def MidP (l : Loc) (g : Key → Val) : Prop :=
-  ∃ d s n, n ≤ 6 ∧ l.cur = (body d s).drop n ∧
-    (n = 1 → l.absent = !(g (.db d)).ex) ∧ (n = 4 → l.absent = !(g (.schema d s)).ex)
+  ∃ d s, (∃ n, n ≤ 6 ∧ l.cur = (body d s).drop n ∧
+            (n = 1 → l.absent = !(g (.db d)).ex) ∧ (n = 4 → l.absent = !(g (.schema d s)).ex)) ∨
+         (∃ m, m ≤ 2 ∧ l.cur = (bodyNS d s).drop m ∧ (m = 1 → l.absent = !(g (.db d)).ex))
 
 def Inv (c : Cfg) : Prop :=
   (∀ i, Res.err ∉ (c.loc i).out) ∧
-  (∀ i, ∀ st ∈ (c.loc i).rest, ∃ d s, st = connectStmt true d s) ∧
-  (∀ i, ((c.loc i).cur = [] ∧ (c.g .lock).held ≠ some i) ∨ ((c.g .lock).held = some i ∧ MidP (c.loc i) c.g))
+  (∀ i, ∀ st ∈ (c.loc i).rest, ∃ cd cs d s, st = connectWith (some 0) cd cs d s) ∧
+  (∀ i, ((c.loc i).cur = [] ∧ (c.g (.lock 0)).held ≠ some i) ∨ ((c.g (.lock 0)).held = some i ∧ MidP (c.loc i) c.g))
 
 theorem settle_ne (absent : Bool) (cur : List Instr) (rest : List Stmt) (x : Instr) (xs : List Instr)
     (h : skipCond absent cur = x :: xs) : settle absent cur rest = (x :: xs, rest) := by
@@ -30,8 +43,8 @@ theorem turn_of_settle (c : Cfg) (i : Nat) (k : Key) (f : Val → Val × Loc) (h
   unfold turn; rw [h]
 
 /-- others are untouched when the holder `i` moves inside the ladder -/
-theorem inv_holder_step (c : Cfg) (i : Nat) (hinv : Inv c) (hh : (c.g .lock).held = some i)
-    (k : Key) (hk : k ≠ .lock) (v' : Val) (l' : Loc)
+theorem inv_holder_step (c : Cfg) (i : Nat) (hinv : Inv c) (hh : (c.g (.lock 0)).held = some i)
+    (k : Key) (hk : k ≠ .lock 0) (v' : Val) (l' : Loc)
     (hout : Res.err ∉ l'.out) (hrest : l'.rest = (c.loc i).rest) (hmid : MidP l' (setG c.g k v')) :
     Inv { g := setG c.g k v', loc := setLoc c.loc i l' } := by
   obtain ⟨h1, h2, h3⟩ := hinv
@@ -42,7 +55,7 @@ theorem inv_holder_step (c : Cfg) (i : Nat) (hinv : Inv c) (hh : (c.g .lock).hel
   · by_cases hj : j = i
     · subst hj; simp only [setLoc, if_true]; rw [hrest]; exact h2 j
     · simpa [setLoc, hj] using h2 j
-  · have hl : (setG c.g k v' .lock) = c.g .lock := by simp [setG, Ne.symm hk]
+  · have hl : (setG c.g k v' (.lock 0)) = c.g (.lock 0) := by simp [setG, Ne.symm hk]
     by_cases hj : j = i
     · subst hj; right; simp only [setLoc, if_true]; exact ⟨by rw [hl]; exact hh, hmid⟩
     · left
@@ -54,9 +67,24 @@ theorem inv_holder_step (c : Cfg) (i : Nat) (hinv : Inv c) (hh : (c.g .lock).hel
 theorem create_ok (v : Val) (h : v.ex = false) : (Op.create.apply v) = ({ v with ex := true }, .ok) := by
   simp [Op.apply, h]
 
+theorem midA {l : Loc} {g : Key → Val} (d s n : Nat) (hn : n ≤ 6) (hc : l.cur = (body d s).drop n)
+    (h1 : n = 1 → l.absent = !(g (.db d)).ex) (h4 : n = 4 → l.absent = !(g (.schema d s)).ex) : MidP l g :=
+  ⟨d, s, Or.inl ⟨n, hn, hc, h1, h4⟩⟩
+
+theorem midB {l : Loc} {g : Key → Val} (d s m : Nat) (hm : m ≤ 2) (hc : l.cur = (bodyNS d s).drop m)
+    (h1 : m = 1 → l.absent = !(g (.db d)).ex) : MidP l g :=
+  ⟨d, s, Or.inr ⟨m, hm, hc, h1⟩⟩
+
+theorem entry_mid (cd cs : Bool) (d s : Nat) (l : Loc) (g : Key → Val) (hc : l.cur = entry cd cs d s) : MidP l g := by
+  cases cd <;> cases cs
+  · exact midA d s 5 (by omega) (by simpa [entry] using hc) (by omega) (by omega)
+  · exact midA d s 3 (by omega) (by simpa [entry] using hc) (by omega) (by omega)
+  · exact midB d s 0 (by omega) (by simpa [entry] using hc) (by omega)
+  · exact midA d s 0 (by omega) (by simpa [entry] using hc) (by omega) (by omega)
+
 theorem inv_turn (c : Cfg) (i : Nat) (hinv : Inv c) : Inv (turn c i) := by
   obtain ⟨h1, h2, h3⟩ := hinv
-  rcases h3 i with ⟨hcur, hnot⟩ | ⟨hh, d, s, n, hn, hcur, hc1, hc4⟩
+  rcases h3 i with ⟨hcur, hnot⟩ | ⟨hh, d, s, hmid⟩
   · -- between statements
     cases hr : (c.loc i).rest with
     | nil =>
@@ -64,11 +92,11 @@ theorem inv_turn (c : Cfg) (i : Nat) (hinv : Inv c) : Inv (turn c i) := by
       have e : turn c i = c := by unfold turn; rw [this]
       rw [e]; exact ⟨h1, h2, h3⟩
     | cons st r =>
-      obtain ⟨d, s, rfl⟩ := h2 i st (by simp [hr])
-      have hs : settle (c.loc i).absent (c.loc i).cur (c.loc i).rest = (.acquire :: body d s, r) := by
+      obtain ⟨cd, cs, d, s, rfl⟩ := h2 i st (by simp [hr])
+      have hs : settle (c.loc i).absent (c.loc i).cur (c.loc i).rest = (.acquire 0 :: entry cd cs d s, r) := by
         rw [hcur, hr, connect_locked]
         cases r <;> simp [settle, skipCond]
-      cases hheld : (c.g .lock).held with
+      cases hheld : (c.g (.lock 0)).held with
       | some h =>
         have e : turn c i = c := by
           apply Cfg.ext'
@@ -76,8 +104,8 @@ theorem inv_turn (c : Cfg) (i : Nat) (hinv : Inv c) : Inv (turn c i) := by
           · intro j; unfold turn stepOf; rw [hs]; simp only [hheld]; simp [setLoc]; intro hj; subst hj; rfl
         rw [e]; exact ⟨h1, h2, h3⟩
       | none =>
-        have e : turn c i = { g := setG c.g .lock { (c.g .lock) with held := some i },
-                               loc := setLoc c.loc i { (c.loc i) with cur := body d s, rest := r } } := by
+        have e : turn c i = { g := setG c.g (.lock 0) { (c.g (.lock 0)) with held := some i },
+                               loc := setLoc c.loc i { (c.loc i) with cur := entry cd cs d s, rest := r } } := by
           unfold turn stepOf; rw [hs]; simp only [hheld, if_true]
         rw [e]
         refine ⟨fun j => ?_, fun j => ?_, fun j => ?_⟩
@@ -90,129 +118,137 @@ theorem inv_turn (c : Cfg) (i : Nat) (hinv : Inv c) : Inv (turn c i) := by
         · by_cases hj : j = i
           · subst hj; right
             simp only [setLoc, if_true, setG]
-            exact ⟨trivial, d, s, 0, by omega, rfl, by omega, by omega⟩
+            exact ⟨trivial, entry_mid cd cs d s _ _ rfl⟩
           · left
             simp only [setLoc, hj, if_false, setG, if_true]
             rcases h3 j with ⟨hc, _⟩ | ⟨hhj, _⟩
             · exact ⟨hc, fun e => hj (Option.some.inj e).symm⟩
             · rw [hheld] at hhj; cases hhj
-  · -- the lock holder, at position n of the ladder
+  · -- the lock holder, somewhere in its ladder
     have hinv : Inv c := ⟨h1, h2, h3⟩
-    have hne1 : Key.db d ≠ Key.lock := by intro h; cases h
-    have hne2 : Key.schema d s ≠ Key.lock := by intro h; cases h
+    have hne1 : Key.db d ≠ Key.lock 0 := by intro h; cases h
+    have hne2 : Key.schema d s ≠ Key.lock 0 := by intro h; cases h
     have hout : ∀ r, r ≠ Res.err → Res.err ∉ (c.loc i).out ++ [r] := by
       intro r hr hmem
       rcases List.mem_append.mp hmem with h | h
       · exact h1 i h
       · simp at h; exact hr h.symm
-    have step : ∀ (k : Key) (f : Val → Val × Loc), stepOf i (c.loc i) = some (k, f) → k ≠ .lock →
+    have step : ∀ (k : Key) (f : Val → Val × Loc), stepOf i (c.loc i) = some (k, f) → k ≠ .lock 0 →
         Res.err ∉ (f (c.g k)).2.out → (f (c.g k)).2.rest = (c.loc i).rest → MidP (f (c.g k)).2 (setG c.g k (f (c.g k)).1) →
         Inv (turn c i) := by
       intro k f hs hk ho hr hm
       rw [turn_of_settle c i k f hs]
       exact inv_holder_step c i hinv hh k hk _ _ ho hr hm
-    -- the seven positions
-    match n, hn with
-    | 0, _ =>
-      have hs : stepOf i (c.loc i) = some (.db d, fun v =>
-          (v, { (c.loc i) with cur := (body d s).drop 1, rest := (c.loc i).rest, absent := !v.ex, out := (c.loc i).out ++ [.flag v.ex] })) := by
-        unfold stepOf; rw [settle_ne _ _ _ (.probe (.db d)) ((body d s).drop 1) (by rw [hcur]; simp [body, skipCond])]
-      refine step _ _ hs hne1 (hout _ (by simp)) rfl ⟨d, s, 1, by omega, rfl, ?_, by omega⟩
-      intro _; simp [setG]
-    | 1, _ =>
-      cases habs : (c.loc i).absent with
-      | true =>
-        have hex : (c.g (.db d)).ex = false := by have := hc1 rfl; rw [habs] at this; simpa using this.symm
-        have hs : stepOf i (c.loc i) = some (.db d, fun v =>
-            let r := Op.create.apply v
-            (r.1, { (c.loc i) with cur := if r.2 = .err then unwind ((body d s).drop 2) else (body d s).drop 2, rest := (c.loc i).rest,
-                                    out := (c.loc i).out ++ [r.2] })) := by
+    -- the three kinds of step inside the ladder, for any remaining instruction list `tl`
+    have probeStep : ∀ (k : Key) (tl : List Instr), k ≠ .lock 0 →
+        skipCond (c.loc i).absent (c.loc i).cur = .probe k :: tl →
+        (∀ g' : Key → Val, (∀ x, g' x = c.g x) →
+          MidP { (c.loc i) with cur := tl, rest := (c.loc i).rest, absent := !(c.g k).ex, out := (c.loc i).out ++ [.flag (c.g k).ex] } g') →
+        Inv (turn c i) := by
+      intro k tl hk hsk hm
+      have hs : stepOf i (c.loc i) = some (k, fun v =>
+          (v, { (c.loc i) with cur := tl, rest := (c.loc i).rest, absent := !v.ex, out := (c.loc i).out ++ [.flag v.ex] })) := by
+        unfold stepOf; rw [settle_ne _ _ _ _ _ hsk]
+      refine step _ _ hs hk (hout _ (by simp)) rfl (hm _ ?_)
+      intro x; simp [setG]; intro hx; subst hx; rfl
+    have callStep : ∀ (k : Key) (op : Op) (tl : List Instr), k ≠ .lock 0 →
+        skipCond (c.loc i).absent (c.loc i).cur = .callIfAbsent k op :: tl →
+        (op.apply (c.g k)).2 = .ok →
+        MidP { (c.loc i) with cur := tl, rest := (c.loc i).rest, out := (c.loc i).out ++ [.ok] } (setG c.g k (op.apply (c.g k)).1) →
+        Inv (turn c i) := by
+      intro k op tl hk hsk hok hm
+      have hs : stepOf i (c.loc i) = some (k, fun v =>
+          let r := op.apply v
+          (r.1, { (c.loc i) with cur := if r.2 = .err then unwind tl else tl, rest := (c.loc i).rest,
+                                  out := (c.loc i).out ++ [r.2] })) := by
+        unfold stepOf; rw [settle_ne _ _ _ _ _ hsk]
+      refine step _ _ hs hk ?_ rfl ?_
+      · simp only [hok]; exact hout _ (by simp)
+      · simp only [hok]; simpa using hm
+    rcases hmid with ⟨n, hn, hcur, hc1, hc4⟩ | ⟨m, hm, hcur, hc1⟩
+    · match n, hn with
+      | 0, _ =>
+        refine probeStep (.db d) ((body d s).drop 1) hne1 (by rw [hcur]; simp [body, skipCond]) (fun g' hg => ?_)
+        exact midA d s 1 (by omega) rfl (fun _ => by simp [hg]) (by omega)
+      | 1, _ =>
+        cases habs : (c.loc i).absent with
+        | true =>
+          have hex : (c.g (.db d)).ex = false := by have := hc1 rfl; rw [habs] at this; simpa using this.symm
+          refine callStep (.db d) .create ((body d s).drop 2) hne1 (by rw [hcur, habs]; simp [body, skipCond])
+            (by simp [create_ok _ hex]) ?_
+          exact midA d s 2 (by omega) rfl (by omega) (by omega)
+        | false =>
+          refine probeStep (.schema d s) ((body d s).drop 4) hne2 (by rw [hcur, habs]; simp [body, skipCond]) (fun g' hg => ?_)
+          exact midA d s 4 (by omega) rfl (by omega) (fun _ => by simp [hg])
+      | 2, _ =>
+        cases habs : (c.loc i).absent with
+        | true =>
+          refine callStep (.db d) .setInfo ((body d s).drop 3) hne1 (by rw [hcur, habs]; simp [body, skipCond])
+            (by simp [Op.apply]) ?_
+          exact midA d s 3 (by omega) rfl (by omega) (by omega)
+        | false =>
+          refine probeStep (.schema d s) ((body d s).drop 4) hne2 (by rw [hcur, habs]; simp [body, skipCond]) (fun g' hg => ?_)
+          exact midA d s 4 (by omega) rfl (by omega) (fun _ => by simp [hg])
+      | 3, _ =>
+        refine probeStep (.schema d s) ((body d s).drop 4) hne2 (by rw [hcur]; simp [body, skipCond]) (fun g' hg => ?_)
+        exact midA d s 4 (by omega) rfl (by omega) (fun _ => by simp [hg])
+      | 4, _ =>
+        cases habs : (c.loc i).absent with
+        | true =>
+          have hex : (c.g (.schema d s)).ex = false := by have := hc4 rfl; rw [habs] at this; simpa using this.symm
+          refine callStep (.schema d s) .create ((body d s).drop 5) hne2 (by rw [hcur, habs]; simp [body, skipCond])
+            (by simp [create_ok _ hex]) ?_
+          exact midA d s 5 (by omega) rfl (by omega) (by omega)
+        | false =>
+          refine probeStep (.schema d s) ((body d s).drop 6) hne2 (by rw [hcur, habs]; simp [body, skipCond]) (fun g' hg => ?_)
+          exact midA d s 6 (by omega) rfl (by omega) (by omega)
+      | 5, _ =>
+        refine probeStep (.schema d s) ((body d s).drop 6) hne2 (by rw [hcur]; simp [body, skipCond]) (fun g' hg => ?_)
+        exact midA d s 6 (by omega) rfl (by omega) (by omega)
+      | 6, _ =>
+        have hs : stepOf i (c.loc i) = some (.lock 0, fun v =>
+            ({ v with held := none }, { (c.loc i) with cur := [], rest := (c.loc i).rest })) := by
           unfold stepOf
-          rw [settle_ne _ _ _ (.callIfAbsent (.db d) .create) ((body d s).drop 2) (by rw [hcur, habs]; simp [body, skipCond])]
-        refine step _ _ hs hne1 ?_ rfl ?_
-        · simp only [create_ok _ hex]; exact hout _ (by simp)
-        · simp only [create_ok _ hex]
-          exact ⟨d, s, 2, by omega, by simp, by omega, by omega⟩
-      | false =>
-        have hs : stepOf i (c.loc i) = some (.schema d s, fun v =>
-            (v, { (c.loc i) with cur := (body d s).drop 4, rest := (c.loc i).rest, absent := !v.ex, out := (c.loc i).out ++ [.flag v.ex] })) := by
-          unfold stepOf
-          rw [settle_ne _ _ _ (.probe (.schema d s)) ((body d s).drop 4) (by rw [hcur, habs]; simp [body, skipCond])]
-        refine step _ _ hs hne2 (hout _ (by simp)) rfl ⟨d, s, 4, by omega, rfl, by omega, ?_⟩
-        intro _; simp [setG]
-    | 2, _ =>
-      cases habs : (c.loc i).absent with
-      | true =>
-        have hs : stepOf i (c.loc i) = some (.db d, fun v =>
-            let r := Op.setInfo.apply v
-            (r.1, { (c.loc i) with cur := if r.2 = .err then unwind ((body d s).drop 3) else (body d s).drop 3, rest := (c.loc i).rest,
-                                    out := (c.loc i).out ++ [r.2] })) := by
-          unfold stepOf
-          rw [settle_ne _ _ _ (.callIfAbsent (.db d) .setInfo) ((body d s).drop 3) (by rw [hcur, habs]; simp [body, skipCond])]
-        refine step _ _ hs hne1 ?_ rfl ?_
-        · simp only [Op.apply]; exact hout _ (by simp)
-        · simp only [Op.apply]
-          exact ⟨d, s, 3, by omega, by simp, by omega, by omega⟩
-      | false =>
-        have hs : stepOf i (c.loc i) = some (.schema d s, fun v =>
-            (v, { (c.loc i) with cur := (body d s).drop 4, rest := (c.loc i).rest, absent := !v.ex, out := (c.loc i).out ++ [.flag v.ex] })) := by
-          unfold stepOf
-          rw [settle_ne _ _ _ (.probe (.schema d s)) ((body d s).drop 4) (by rw [hcur, habs]; simp [body, skipCond])]
-        refine step _ _ hs hne2 (hout _ (by simp)) rfl ⟨d, s, 4, by omega, rfl, by omega, ?_⟩
-        intro _; simp [setG]
-    | 3, _ =>
-      have hs : stepOf i (c.loc i) = some (.schema d s, fun v =>
-          (v, { (c.loc i) with cur := (body d s).drop 4, rest := (c.loc i).rest, absent := !v.ex, out := (c.loc i).out ++ [.flag v.ex] })) := by
-        unfold stepOf
-        rw [settle_ne _ _ _ (.probe (.schema d s)) ((body d s).drop 4) (by rw [hcur]; simp [body, skipCond])]
-      refine step _ _ hs hne2 (hout _ (by simp)) rfl ⟨d, s, 4, by omega, rfl, by omega, ?_⟩
-      intro _; simp [setG]
-    | 4, _ =>
-      cases habs : (c.loc i).absent with
-      | true =>
-        have hex : (c.g (.schema d s)).ex = false := by have := hc4 rfl; rw [habs] at this; simpa using this.symm
-        have hs : stepOf i (c.loc i) = some (.schema d s, fun v =>
-            let r := Op.create.apply v
-            (r.1, { (c.loc i) with cur := if r.2 = .err then unwind ((body d s).drop 5) else (body d s).drop 5, rest := (c.loc i).rest,
-                                    out := (c.loc i).out ++ [r.2] })) := by
-          unfold stepOf
-          rw [settle_ne _ _ _ (.callIfAbsent (.schema d s) .create) ((body d s).drop 5) (by rw [hcur, habs]; simp [body, skipCond])]
-        refine step _ _ hs hne2 ?_ rfl ?_
-        · simp only [create_ok _ hex]; exact hout _ (by simp)
-        · simp only [create_ok _ hex]
-          exact ⟨d, s, 5, by omega, by simp, by omega, by omega⟩
-      | false =>
-        have hs : stepOf i (c.loc i) = some (.schema d s, fun v =>
-            (v, { (c.loc i) with cur := (body d s).drop 6, rest := (c.loc i).rest, absent := !v.ex, out := (c.loc i).out ++ [.flag v.ex] })) := by
-          unfold stepOf
-          rw [settle_ne _ _ _ (.probe (.schema d s)) ((body d s).drop 6) (by rw [hcur, habs]; simp [body, skipCond])]
-        exact step _ _ hs hne2 (hout _ (by simp)) rfl ⟨d, s, 6, by omega, rfl, by omega, by omega⟩
-    | 5, _ =>
-      have hs : stepOf i (c.loc i) = some (.schema d s, fun v =>
-          (v, { (c.loc i) with cur := (body d s).drop 6, rest := (c.loc i).rest, absent := !v.ex, out := (c.loc i).out ++ [.flag v.ex] })) := by
-        unfold stepOf
-        rw [settle_ne _ _ _ (.probe (.schema d s)) ((body d s).drop 6) (by rw [hcur]; simp [body, skipCond])]
-      exact step _ _ hs hne2 (hout _ (by simp)) rfl ⟨d, s, 6, by omega, rfl, by omega, by omega⟩
-    | 6, _ =>
-      have hs : stepOf i (c.loc i) = some (.lock, fun v =>
-          ({ v with held := none }, { (c.loc i) with cur := [], rest := (c.loc i).rest })) := by
-        unfold stepOf
-        rw [settle_ne _ _ _ .release [] (by rw [hcur]; simp [body, skipCond])]
-      rw [turn_of_settle c i _ _ hs]
-      refine ⟨fun j => ?_, fun j => ?_, fun j => ?_⟩
-      · by_cases hj : j = i
-        · subst hj; simpa [setLoc] using h1 j
-        · simpa [setLoc, hj] using h1 j
-      · by_cases hj : j = i
-        · subst hj; simpa [setLoc] using h2 j
-        · simpa [setLoc, hj] using h2 j
-      · left
-        by_cases hj : j = i
-        · subst hj; simp [setLoc, setG]
-        · simp only [setLoc, hj, if_false, setG, if_true]
-          rcases h3 j with ⟨hc, _⟩ | ⟨hhj, _⟩
-          · exact ⟨hc, by simp⟩
-          · rw [hh] at hhj; exact absurd (Option.some.inj hhj).symm hj
+          rw [settle_ne _ _ _ (.release 0) [] (by rw [hcur]; simp [body, skipCond])]
+        rw [turn_of_settle c i _ _ hs]
+        refine ⟨fun j => ?_, fun j => ?_, fun j => ?_⟩
+        · by_cases hj : j = i
+          · subst hj; simpa [setLoc] using h1 j
+          · simpa [setLoc, hj] using h1 j
+        · by_cases hj : j = i
+          · subst hj; simpa [setLoc] using h2 j
+          · simpa [setLoc, hj] using h2 j
+        · left
+          by_cases hj : j = i
+          · subst hj; simp [setLoc, setG]
+          · simp only [setLoc, hj, if_false, setG, if_true]
+            rcases h3 j with ⟨hc, _⟩ | ⟨hhj, _⟩
+            · exact ⟨hc, by simp⟩
+            · rw [hh] at hhj; exact absurd (Option.some.inj hhj).symm hj
+    · -- ladder without the schema-creation rung
+      match m, hm with
+      | 0, _ =>
+        refine probeStep (.db d) ((bodyNS d s).drop 1) hne1 (by rw [hcur]; simp [bodyNS, skipCond]) (fun g' hg => ?_)
+        exact midB d s 1 (by omega) rfl (fun _ => by simp [hg])
+      | 1, _ =>
+        cases habs : (c.loc i).absent with
+        | true =>
+          have hex : (c.g (.db d)).ex = false := by have := hc1 rfl; rw [habs] at this; simpa using this.symm
+          refine callStep (.db d) .create ((bodyNS d s).drop 2) hne1 (by rw [hcur, habs]; simp [bodyNS, skipCond])
+            (by simp [create_ok _ hex]) ?_
+          exact midB d s 2 (by omega) rfl (by omega)
+        | false =>
+          refine probeStep (.schema d s) ((body d s).drop 6) hne2 (by rw [hcur, habs]; simp [bodyNS, body, skipCond]) (fun g' hg => ?_)
+          exact midA d s 6 (by omega) rfl (by omega) (by omega)
+      | 2, _ =>
+        cases habs : (c.loc i).absent with
+        | true =>
+          refine callStep (.db d) .setInfo ((body d s).drop 5) hne1 (by rw [hcur, habs]; simp [bodyNS, body, skipCond])
+            (by simp [Op.apply]) ?_
+          exact midA d s 5 (by omega) rfl (by omega) (by omega)
+        | false =>
+          refine probeStep (.schema d s) ((body d s).drop 6) hne2 (by rw [hcur, habs]; simp [bodyNS, body, skipCond]) (fun g' hg => ?_)
+          exact midA d s 6 (by omega) rfl (by omega) (by omega)
 
 theorem inv_run (σ : List Nat) : ∀ c, Inv c → Inv (runSched c σ) := by
   induction σ with
